@@ -56,6 +56,24 @@ func runNative(repo, verif string, spec *Spec, hdir string, ps PkgSpec, funcs []
 	for _, f := range ps.Files {
 		ov[filepath.Join(repo, ps.Dir, "zz_verif_"+filepath.Base(f))] = filepath.Join(hdir, f)
 	}
+	// harness files of the property's other packages (a harness may use exported helpers of another one)
+	for i, hp := range spec.Packages {
+		if hp.Path == ps.Path {
+			continue
+		}
+		for _, f := range hp.Files {
+			ov[filepath.Join(repo, hp.Dir, "zz_verif_"+filepath.Base(f))] = filepath.Join(hdir, f)
+		}
+		if !hp.Helper {
+			oapi, err := apiFile(verif, hp.Name, true)
+			if err != nil {
+				return nil, "", err
+			}
+			oPath := filepath.Join(tmp, fmt.Sprintf("api%d.go", i))
+			os.WriteFile(oPath, oapi, 0o644)
+			ov[filepath.Join(repo, hp.Dir, "zz_verif_api.go")] = oPath
+		}
+	}
 	for _, m := range strings.Split(os.Getenv("GOSMT_MUTANT"), ",") {
 		if kv := strings.SplitN(m, "=", 2); len(kv) == 2 {
 			ov[filepath.Join(repo, kv[0])] = kv[1]
